@@ -156,10 +156,12 @@ CHECKS = {
     "C16": dict(
         level="fault_enumeration",
         rule=("part A: for generated command sets (5 control types, 8/16-bit indices, 1-3 headers) and both modes, the COMPLETE catalogue of single-change echo mutations (every status code, every value byte, index, dropped/duplicated/swapped object, prefix width, variation, dropped/swapped/extra header, empty, truncated, IIN2 rejection) applied to the first reply and, for select-before-operate, to the second; "
-              "part B: every request kind (read, direct operate, select+operate, 3 time-sync procedures, cold/warm restart, dead-band write, link status, empty-response, file read through a recording FileReader [open, two blocks, close], file info) x every protocol step x {no failure, reply lost, reply lost with channel chatter, link error, channel disabled, association removed, association removed and the reply then arrives}; part Q: queue full and no connection. "
+              "part B: every request kind (read, direct operate, select+operate, 3 time-sync procedures, cold/warm restart, dead-band write, link status, empty-response, file read through a recording FileReader [open, two blocks, close], the same after authentication [5 steps], directory read [listing cut inside a descriptor], file info, file authenticate / open / write block / write last block / close) x every protocol step x {no failure, reply lost, reply lost with channel chatter, link error, channel disabled, association removed, association removed and the reply then arrives; for file operations also 8 replies that do not grant the step: failure status or zero key, other variation, truncated, IIN2 rejection, empty, two headers, wrong handle, wrong block}; part Q: queue full and no connection. "
               "distinct = (part, mode, mutation class, step) and (request kind, step, failure) tuples"),
         runs=[dict(check="c16", scale=6, timeout_s=900)],
-        required=["faithful_echo_ok", "mutated_echo_rejected", "operate_withheld_ok", "operate_matches_select_ok", "catalogue_runs", "faithful_exchange_ok", "failure_reported_in_time", "failure_points_enumerated", "queue_full_rejected_ok", "no_connection_rejected_ok", "file_close_failure_after_completion_ok"],
+        required=["faithful_echo_ok", "mutated_echo_rejected", "operate_withheld_ok", "operate_matches_select_ok", "catalogue_runs", "faithful_exchange_ok", "failure_reported_in_time", "failure_points_enumerated", "queue_full_rejected_ok", "no_connection_rejected_ok", "file_close_failure_after_completion_ok",
+                  "faithful_ok_read_directory", "faithful_ok_read_file_auth", "faithful_ok_file_auth", "faithful_ok_file_open", "faithful_ok_file_write_last_block", "faithful_ok_file_close",
+                  "file_reply_spoiled_status", "file_reply_spoiled_wrong_handle", "file_reply_spoiled_wrong_block", "file_reply_spoiled_two_headers"],
         thorough_scale=12.0,
         abnormal_exit_is_violation=True,
         exhaustive_note="mutation catalogue enumerated completely for each generated command set; request kind x step x failure enumerated completely (3 repetitions with different timeouts/decode levels)",
